@@ -43,10 +43,36 @@ MUSCLE = ("gaintype=2 biastype=2 dyntype=4 gainprm=0.75,1.05,-1,200,0.5,1.6,1.5,
           "biasprm=0.75,1.05,-1,200,0.5,1.6,1.5,1.3,1.2 dynprm=0.01,0.04")
 
 
+def msh_bytes(bar, h):
+    """binary .msh (header nvert, nnormal, ntexcoord, nface; float vertices; int faces): an L-shaped, NON-CONVEX prism -
+    polygon (0,0) (bar,0) (bar,1) (1,1) (1,2) (0,2) extruded over [0, h]; exact and legacy inertia differ on it"""
+    import struct
+    P = [(0, 0), (bar, 0), (bar, 1), (1, 1), (1, 2), (0, 2)]
+    v = []
+    for k in range(2):
+        for (x, y) in P:
+            v += [x, y, h if k else 0.0]
+    tri = [(0, 1, 2), (0, 2, 3), (0, 3, 4), (0, 4, 5)]
+    f = []
+    for t in tri:
+        f += [6 + t[0], 6 + t[1], 6 + t[2]]
+    for t in tri:
+        f += [t[0], t[2], t[1]]
+    for i in range(6):
+        j = (i + 1) % 6
+        f += [i, j, 6 + j, i, 6 + j, 6 + i]
+    return struct.pack("<4i", len(v) // 3, 0, 0, len(f) // 3) + struct.pack("<%df" % len(v), *v) + struct.pack("<%di" % len(f), *f)
+
+
+VFS_CMDS = ["sl_vfs L.msh %s" % msh_bytes(3.0, 0.5).hex(), "sl_vfs O.msh %s" % msh_bytes(2.5, 1.0).hex()]
+
+
 def base_lines(base, thr):
     L = ["compiler usethread=%d" % (1 if thr else 0), "option timestep=0.01",
          "mesh name=m1 %s inertia=1" % TET, "mesh name=m2 %s scale=2,1,1 inertia=1" % TET,
          "mesh name=m3 %s scale=1,3,1 inertia=1" % TET, "mesh name=m4 %s scale=1,1,0.5 inertia=1" % TET,
+         # file meshes through the VFS and the global asset cache: fe and fl load the SAME file with different inertia modes
+         "mesh name=fe file=L.msh inertia=1", "mesh name=fl file=L.msh inertia=2", "mesh name=fo file=O.msh inertia=2",
          "texture name=t1 type=0 builtin=2 width=32 height=32 rgb1=1,0,0 rgb2=0,1,0",
          "texture name=t2 type=0 builtin=1 width=16 height=48 rgb1=0,0,1 rgb2=1,1,0",
          "texture name=t3 type=0 builtin=3 width=8 height=8 rgb1=0.5,0.5,0.5",
@@ -56,11 +82,13 @@ def base_lines(base, thr):
          "geom body=b1 name=g1 type=2 size=0.1", "geom body=b1 name=gm1 type=7 meshname=m1 contype=0 conaffinity=0",
          "body name=b2 pos=1,0,1", "joint body=b2 name=j2 type=2 axis=0,0,1 limited=1 range=-0.5,0.5",
          "geom body=b2 name=g2 type=2 size=0.1", "geom body=b2 name=gm2 type=7 meshname=m2 contype=0 conaffinity=0",
+         "geom body=b2 name=gfe type=7 meshname=fe contype=0 conaffinity=0 density=10",
          "body name=b3 pos=2,0,1", "joint body=b3 name=j3 type=0",
          "geom body=b3 name=g3 type=6 size=0.1,0.1,0.1", "geom body=b3 name=gm3 type=7 meshname=m3 contype=0 conaffinity=0",
          "geom body=b3 name=gm4 type=7 meshname=m4 contype=0 conaffinity=0",
+         "geom body=b3 name=gfo type=7 meshname=fo contype=0 conaffinity=0 density=10",
          "body name=b4 pos=3,0,1", "joint body=b4 name=j4 type=3 axis=1,0,0",
-         "geom body=b4 name=g4 type=3 size=0.05,0.2",
+         "geom body=b4 name=g4 type=3 size=0.05,0.2", "geom body=b4 name=gfl type=7 meshname=fl contype=0 conaffinity=0 density=10",
          "body name=mb pos=0,1,1 mocap=1", "geom body=mb name=gmb type=2 size=0.05 contype=0 conaffinity=0"]
     if base == "multi":
         # PID servo with position and velocity setpoint inputs: actuator_ctrlnum = 2
@@ -78,7 +106,7 @@ def op_cmds(ev):
     """harness commands of one specification event"""
     op = ev["op"]
     if op == "init":
-        return (["sl_reset", "spec 1"] + base_lines(ev["base"], ev["thr"]) + ["end", "compile 1 1", "data 0 1"]), 4
+        return (["sl_reset"] + VFS_CMDS + ["spec 1"] + base_lines(ev["base"], ev["thr"]) + ["end", "compile 1 1", "data 0 1"]), 6
     if op == "newspec":
         return (["spec %d" % ev["s"]] + base_lines(ev["base"], ev["thr"]) + ["end"]), 1
     if op == "copyspec":
@@ -97,10 +125,12 @@ def op_cmds(ev):
         return ["sl_setstate 0 %d" % ev["v"], "sl_state 0"], 2
     if op == "recompile":
         return ["recompile %d %d 0" % (ev["s"], ev["m"])], 1
+    if op == "cache":
+        return ["sl_cache %s" % ev["k"]], 1
     raise Machinery("unknown operation %r" % (ev,))
 
 
-OK_ANSWER = {"sl_reset": "ok", "spec": "ok", "compile": "ok", "data": "ok", "sl_copyspec": "ok", "sl_edit": "ok",
+OK_ANSWER = {"sl_vfs": "ok", "sl_cache": "ok", "sl_reset": "ok", "spec": "ok", "compile": "ok", "data": "ok", "sl_copyspec": "ok", "sl_edit": "ok",
              "sl_thread": "ok", "copymodel": "ok", "sl_setstate": "ok", "recompile": "0"}
 
 
@@ -225,7 +255,11 @@ def check_behaviour(ctx, beh, nm, cmds, plan, lines, oi, label):
             for b in live:
                 if a < b and cls[a - 1] == cls[b - 1] and hashes[a] != hashes[b]:
                     thr = [e.get("thr") for e in ops[:k + 1] if e["op"] in ("compile", "recompile", "init")]
-                    return ("model-bytes-differ:after-%s" % ev["op"],
+                    how = st["obs"]["how"]
+                    cstate = ("cache-state-differs" if tuple(how[a - 1]) != tuple(how[b - 1]) else "same-cache-state")
+                    if tuple(how[a - 1])[:1] != tuple(how[b - 1])[:1]:
+                        cstate = "cache-enabled-vs-disabled"
+                    return ("model-bytes-differ:after-%s:%s" % (ev["op"], cstate),
                             "model slots %d and %d must be byte-identical (same content) but mj_saveModel gives %s vs %s; "
                             "history %s (usethread of the compiles: %s)" % (a, b, hashes[a], hashes[b], short[:k + 1], thr), None)
                 if a < b and cls[a - 1] != cls[b - 1] and hashes[a] != hashes[b]:
@@ -359,7 +393,15 @@ def run_all(ctx):
     behs, ne2 = graph_behaviours(ctx, "SpecLifecycle_Rec4.cfg" if ctx.quick else "SpecLifecycle_Rec.cfg", "graph(recompile)")
     total_bad += replay_behaviours(ctx, exe, behs, 1, "recompile graph")
     n2 = len(behs)
+    behs2 = behs
     tladump.timing("c33 graph2 (%d paths)" % n2, t0)
+    # ---- every transition of the asset-cache graph: cache off / on / cleared, thread toggles, compile into a second
+    #      slot, recompile - the images must not depend on the cache state
+    behs, ne3 = graph_behaviours(ctx, "SpecLifecycle_Cache.cfg" if ctx.quick else "SpecLifecycle_Cache4.cfg", "graph(asset cache)")
+    total_bad += replay_behaviours(ctx, exe, behs, 2, "asset-cache graph")
+    n3 = len(behs)
+    tladump.timing("c33 graph3 (%d paths)" % n3, t0)
+    behs = behs2
     # negative control: the comparer must react to a wrong expectation.  The FIRST item it compares after the last
     # operation (time) is perturbed, and the verdict must change - whatever the implementation did.
     ctl = next((b for b in behs if b[-1]["ev"]["op"] == "recompile" and b[-1]["obs"]["time"] > 0), None)
@@ -387,10 +429,11 @@ def run_all(ctx):
     tladump.timing("c33 sim", t0)
     # ---- OS schedules of the compiler pools: repeated threaded compiles / recompiles against the serial image
     reps = 30 if ctx.quick else 200
-    cmds = ["sl_reset", "spec 1"] + base_lines("multi", False) + ["end", "compile 1 1", "sl_bytes 1",
-                                                                  "spec 2"] + base_lines("multi", True) + ["end"]
+    cmds = ["sl_reset"] + VFS_CMDS + ["sl_cache off", "spec 1"] + base_lines("multi", False) + [
+        "end", "compile 1 1", "sl_bytes 1", "sl_cache on", "spec 2"] + base_lines("multi", True) + ["end"]
     for k in range(reps):
-        cmds += ["compile 2 2", "sl_bytes 2"]
+        # cold cache for two compiles out of three: the mesh tasks of the two assets sharing a file race for the entry
+        cmds += (["sl_cache clear"] if k % 3 else []) + ["compile 2 2", "sl_bytes 2"]
     cmds += ["data 0 2"]
     for k in range(reps // 3):
         cmds += ["recompile 2 2 0", "sl_bytes 2"]
@@ -417,10 +460,10 @@ def run_all(ctx):
         raise Machinery("no two models of different content ever differed in their bytes: the edits have no effect")
     ctx.cov["exhaustive"] = exhaustive
     ctx.cov["rule"] = ("behaviours = edge cover of the exhaustive all-operations graph (%d transitions, %d paths) and of the "
-                       "recompile graph (%d transitions, %d paths) + %d simulated histories of 10 operations over 3 model slots + "
-                       "%d threaded compiles/recompiles against the serial image; after every operation the mj_saveModel "
+                       "recompile graph (%d transitions, %d paths) and of the asset-cache graph (%d transitions, %d paths) + %d simulated histories of 10 operations over 3 model slots + "
+                       "%d threaded compiles/recompiles against the serial cache-disabled image; after every operation the mj_saveModel "
                        "image of each model slot and the element-wise state are compared with obs; non-trivial = the history "
-                       "compiles, copies or recompiles a model" % (ne1, n1, ne2, n2, len(sims), reps + reps // 3))
+                       "compiles, copies or recompiles a model" % (ne1, n1, ne2, n2, ne3, n3, len(sims), reps + reps // 3))
 
 
 def replay(ctx, rp):
@@ -440,6 +483,7 @@ def replay(ctx, rp):
     beh = q["behaviour"]
     for st in beh:                      # JSON turned tuples into lists and kept dicts: that is what the comparer reads
         st["obs"]["cls"] = list(st["obs"]["cls"])
+        st["obs"]["how"] = [list(h) for h in st["obs"]["how"]]
     cmds, plan = script_for(beh, q["nm"])
     r = drv.run_script(exe, cmds, timeout=600)
     res = check_behaviour(ctx, beh, q["nm"], cmds, plan, r.lines, out_index(cmds), "replay")
